@@ -94,7 +94,7 @@ class C06(fw.Prop):
             "0, 1, 255, 2^32-200, 2^32-4, 2^32-1 (so the counter reaches 2^32); received counter sequences with duplicates, decreasing runs, the value equal to the last accepted and jumps to 2^32-1; "
             "every step compared with the model (counters, ghost logs implied by the outputs); in addition security.encrypt / security.gmac are wrapped "
             "inside the harness process and the property is evaluated on the implementation: nonces pairwise distinct, k-th use = start + k, accepted "
-            "counters strictly increasing; the same AARQ/RLRQ object handed to send() again after a rejection / for a second association; the counter carried on the wire by the k-th protected item is start+k; the meter's side uses harness/refcrypto.py; a recorded rejecting AARE delivered on every later attempt; a DlmsClient whose transport fails after the request was written (no counter twice on the wire); non-trivial = distinct history")
+            "counters strictly increasing; the same AARQ/RLRQ object handed to send() again after a rejection / for a second association; the counter carried on the wire by the k-th protected item is start+k; the meter's side uses harness/refcrypto.py; a recorded rejecting AARE delivered on every later attempt; a DlmsClient whose transport fails after the request was written (no counter twice on the wire); a second association under another title with a lower / equal / higher counter, then the recorded first AARE again; non-trivial = distinct history")
     trusted_base = ["the symbolic-cryptography abstraction (DESIGN.md §5b)", "the nonce observer wraps dlms_cosem.security from inside the harness (no source hook)"]
     assumptions = ["'protected item' = a ciphered APDU or an HLS proof: both consume a counter (the two clauses of C06 cannot both hold literally in an HLS session; freshness is normative, DESIGN.md §6 C06)"]
     technique = "Lean 4 proof by induction over histories with the invariant 'the log of key uses is start, start+1, … under the client title' and 'accepted counters strictly increase'; differential correspondence + nonce observation on the implementation"
@@ -251,6 +251,23 @@ class C06(fw.Prop):
                 ops = [["send", "aarq", 1], rej, ["send", "aarq", 1], rej, ["send", "aarq", 1], rej, p.resp("aare", (res, None)), ["send", "aarq", 1], rej,
                        p.resp("aare", (0, None)), ["send", "getReq", 1], rej, p.resp("getRespNormal")]
                 yield self.make_case({"cfg": cfg.to_json(), "ops": ops, "tag": "rejecting-aare-replayed"})
+        # associations with a meter that names another title the second time (a replaced meter, or someone who says so): what was
+        # accepted before stays the floor - the recorded first AARE is refused when it comes again
+        for c1, c2 in ((50, 70), (50, 20), (1000, 1000)):
+            cfg = cl.Cfg(ek=EK, ak=AK, cic=rng.choice([3, 90]))
+            t2 = MT[:-2] + "5a"
+            p = Path("hls", cfg)
+            p.mic = c1 - 1
+            first_aare = p.resp("aare", (0, None))
+            ops = [["send", "aarq", 1], first_aare, ["send", "rlrq", 1]]
+            ops.append(p.resp("rlre"))
+            p.mic = max(c2 - 1, 0)
+            second = p.resp("aare", (0, None))
+            second[1][3] = t2
+            second[1][5] = second[1][5].replace(MT, t2)
+            ops += [["send", "aarq", 1], second, ["send", "rlrq", 1], ["recv", ["rlre", "absent"], None], ["send", "aarq", 1], first_aare, second,
+                    ["send", "getReq", 1]]
+            yield self.make_case({"cfg": cfg.to_json(), "ops": ops, "tag": "second-title"})
         # a client whose transport fails after the request was written (lost answer): whatever the client does next, no counter
         # is carried twice by what it writes
         for fail_at in (1, 2, 3):
